@@ -260,6 +260,14 @@ func runCheck(cfg *config, spec *engineSpec) int {
 	if len(unknown) > 0 {
 		return 1
 	}
+	// sources of nondeterminism the simulator does not own, or an instrumented build that
+	// disagrees with the plain one: the machinery will not vouch for this tree.
+	if d, ok := rc.info["natural_order_disagree"].([]string); ok && len(d) > 0 {
+		die2("instrumentation fidelity: the un-instrumented natural-order generation of %v differs from the instrumented all-ascending reference while all simulated executions agree among themselves", d)
+	}
+	if u, ok := rc.info["cannot_vouch"].([]string); ok && len(u) > 0 {
+		die2("the compile/generate path now contains sources of nondeterminism the simulator does not own: %v", u)
+	}
 	fmt.Printf("[%s] property %s held on all %d runs (wall %.0fs)\n", spec.name, spec.property, rc.runs, time.Since(t0).Seconds())
 	return 0
 }
